@@ -1162,12 +1162,12 @@ def call_method(ex, obj, name, args, kwargs):
         # rejects an empty set with ValueError and non-Intervention members with TypeError; plain members would be converted)
         at = L.intervene_axioms()
         S = ex.as_set(args[0])
-        ex.require(L.And(L.Not(L.is_cf(obj.t)), L.Not(L.is_intervention(obj.t))), "TypeError", "intervene.receiver")
+        ex.require(L.And(L.Not(L.is_cf(obj.t)), L.Not(L.is_intervention(obj.t))), "ModelLimit", "model.intervene.receiver")
         ex.require(L.forall(1, lambda i: L.Implies(S.has(i), L.is_intervention(i))), "TypeError", "intervene.members")
         ex.require(L.exists(1, lambda i: S.has(i)), "ValueError", "intervene.empty")
         from . import exprs
         T = exprs.theory(ex)
-        return VNode(at(T.set_to_array(S), obj.t))
+        return VNode(at(T.set_to_array(S, binders=ex.binders), obj.t))
     if isinstance(obj, VNode):
         if name == "get_base":
             b_, _, _ = L.var_algebra()
